@@ -628,6 +628,28 @@ def stress_cases(rng, big=False):
     # variable-length fields with lying prefixes
     out.append(Case("stress:ipfix-varlen", ["P 0", "B 0 " + hexs(ipfix_msg([ipfix_set(2, be(256, 2) + be(2, 2) + be(82, 2) + be(65535, 2) + be(1, 2) + be(4, 2))])),
                                             "B 0 " + hexs(ipfix_msg([ipfix_set(256, b"\xff\xff\xff" + bytes(50))])), "B 0 " + hexs(ipfix_msg([ipfix_set(256, b"\xff\x00\x02ab" + bytes(4) + b"\x00" + bytes(4) + b"\xfe" + bytes(10))]))]))
+    # a large cache from history, then many small packets that need no template at all: cost must
+    # not depend on what the parser holds
+    nf = 12000 if big else 4000
+    chain = 400 if big else 200
+    out.append(Case("stress:ipfix-big-cache-then-chain",
+                    ["P 0", "B 0 " + hexs(ipfix_msg([ipfix_set(2, be(256, 2) + be(nf, 2) + (be(1, 2) + be(1, 2)) * nf)])),
+                     "B 0 " + hexs((be(10, 2) + be(16, 2) + bytes(12)) * chain),
+                     "B 0 " + hexs(ipfix_msg([ipfix_set(2, be(257, 2) + be(1, 2) + be(4, 2) + be(1, 2))]) + ipfix_msg([ipfix_set(257, bytes([6]) * 4)]) * chain)]))
+    out.append(Case("stress:v9-big-cache-then-chain",
+                    ["P 0", "B 0 " + hexs(v9_pkt([v9_fs(0, be(256, 2) + be(nf, 2) + (be(1, 2) + be(1, 2)) * nf)])),
+                     "B 0 " + hexs((be(9, 2) + be(0, 2) + bytes(16)) * chain),
+                     "B 0 " + hexs(v9_pkt([v9_fs(0, be(257, 2) + be(1, 2) + be(4, 2) + be(1, 2))]) + v9_pkt([v9_fs(257, bytes([6]) * 4)]) * chain)]))
+    # one 1-byte field plus many zero-length fields that cannot be decoded from 0 bytes (unsigned
+    # counters): every record fails, nothing is output, so nothing may be allocated for it
+    nz = 200
+    body = bytes(60000 if big else 20000)
+    out.append(Case("stress:ipfix-zero-len-undecodable",
+                    ["P 0", "B 0 " + hexs(ipfix_msg([ipfix_set(2, be(256, 2) + be(nz + 1, 2) + be(4, 2) + be(1, 2) + (be(1, 2) + be(0, 2)) * nz)])),
+                     "B 0 " + hexs(ipfix_msg([ipfix_set(256, body)]))]))
+    out.append(Case("stress:v9-zero-len-undecodable",
+                    ["P 0", "B 0 " + hexs(v9_pkt([v9_fs(0, be(256, 2) + be(nz + 1, 2) + be(4, 2) + be(1, 2) + (be(1, 2) + be(0, 2)) * nz)])),
+                     "B 0 " + hexs(v9_pkt([v9_fs(256, body)]))]))
     # durations of 8 and 16 bytes (export Err), 24-bit numbers
     out.append(Case("stress:durations", ["P 0", "B 0 " + hexs(v9_pkt([v9_fs(0, be(256, 2) + be(3, 2) + be(21, 2) + be(8, 2) + be(22, 2) + be(16, 2) + be(1, 2) + be(3, 2)), v9_fs(256, b"\xff" * 27)]))]))
     return out
